@@ -7,6 +7,8 @@
 import MpirProofs.Lemmas.SieveTop
 import MpirProofs.Lemmas.SwingAsm
 import MpirProofs.Lemmas.Goet
+import MpirProofs.Lemmas.Primorial
+import MpirProofs.Lemmas.NextPrime
 namespace Mpir.Sieve
 open Mpir Mpir.Numth
 
@@ -333,4 +335,110 @@ theorem bin_uiui_goetgheluck_spec (n k0 : ℕ) (hn : n < B) (hd : (binDispatch n
   rw [goetgheluck_eq_choose n k (by omega) hn (by omega) (by rw [nb_eq, nb_eq]; omega)]
 example : binDispatch 20000 1251 = (.goetgheluck, 1251) ∧ binDispatch 20016 1251 = (.bdiv, 1251) := by decide +kernel
 
+/-! ## Primorial -/
+
+/-- **mpz_primorial_ui n = n#** (product of the primes ≤ n) for EVERY n < 2^64: table below 5, then the sieve walk
+    with FACTOR_LIST_STORE (max_prod = GMP_NUMB_MAX/n, no limb product wraps). -/
+theorem primorial_ui_spec (n : ℕ) (hn : n < B) : mpz_primorial_ui n = _root_.primorial n := by
+  rw [mpz_primorial_ui_eq n hn, primorial_eq]
+example : mpz_primorial_ui 1000 % 997 = 0 ∧ mpz_primorial_ui 30 = 2 * 3 * 5 * 7 * 11 * 13 * 17 * 19 * 23 * 29 := by decide +kernel
+
 end Mpir.Numth
+
+namespace Mpir.Sieve
+open Mpir Mpir.Numth
+
+/-! ## mpz_next_prime_candidate / mpz_nextprime -/
+
+/-- **The residue update** (next_prime_candidate.c:113-120): if moduli[i] = c mod prime_i for every table prime, one pass
+    sets `composite` exactly when some table prime divides c and leaves moduli[i] = (c + 2) mod prime_i — so at the top
+    of every iteration moduli[i] = (p + difference) mod prime_i. -/
+theorem npc_residue_invariant (c : ℕ) (prs : List ℕ) (hprs : ∀ q ∈ prs, 2 ≤ q) :
+    npcResidues (prs.map (fun q => c % q)) prs = (decide (∃ q ∈ prs, q ∣ c), prs.map (fun q => (c + 2) % q)) :=
+  npcResidues_spec c prs hprs
+example : npcResidues [1001 % 3, 1001 % 5, 1001 % 7] [3, 5, 7] = (true, [1003 % 3, 1003 % 5, 1003 % 7]) := by decide
+
+theorem npc_table_facts :
+    (∀ q ∈ npcTab.take (npcTab.length - 1), isPrimeTD q = true ∧ q < 999) ∧ npcTab.getD (npcTab.length - 1) 0 = 997 := by
+  decide +kernel
+
+/-- **The table path** (n < 997: next_prime_candidate.c:66-102 — tiny numbers, then the binary search in `primes[]`):
+    the result is the least prime greater than n, for every n (negative n included). -/
+theorem npc_small_path_spec (n : ℤ) (hn : n < 997) :
+    ∃ r, npcSmallPath n = some r ∧ r.Prime ∧ n < r ∧ ∀ j : ℕ, n < j → j < r → ¬ j.Prime := by
+  have hdec : ∀ m < 997, npcSmallPath ((m : ℕ) : ℤ) = some (nextPrime m) ∧ isPrimeTD (nextPrime m) = true := by
+    decide +kernel
+  by_cases hneg : n < 0
+  · refine ⟨2, by unfold npcSmallPath; simp [show n < 2 by omega], Nat.prime_two, by omega, fun j h1 h2 hp => ?_⟩
+    have := hp.two_le; omega
+  · obtain ⟨m, rfl⟩ : ∃ m : ℕ, n = (m : ℤ) := ⟨n.toNat, by omega⟩
+    have hm : m < 997 := by omega
+    obtain ⟨h1, h2⟩ := hdec m hm
+    obtain ⟨s1, _, s3⟩ := firstPrimeFrom_spec (m + 2) (m + 1)
+    refine ⟨nextPrime m, h1, (isPrimeTD_iff _).1 h2, by unfold nextPrime; omega, fun j hj1 hj2 hp => ?_⟩
+    have := s3 j (by omega) hj2
+    rw [isPrime_of_prime j hp] at this; exact absurd this (by simp)
+example : npcSmallPath 113 = some 127 ∧ npcSmallPath 996 = some 997 ∧ npcSmallPath (-5) = some 2 ∧ npcSmallPath 7 = some 11 ∧
+    npcSmallPath 997 = none := by decide +kernel
+
+/-- **No prime is skipped by mpz_next_prime_candidate** (n ≥ 997: the residue loop), given only that the primality test
+    never rejects a prime — a THEOREM for mpz_miller_rabin (`miller_rabin_never_rejects_prime`): the result r
+    exceeds n, no prime lies strictly between n and r (every skipped candidate has a prime factor from the table,
+    which is smaller than the candidate, or was rejected by the test), r is odd, has no factor in the table and
+    passed the test.  If the test is also sound (accepts only primes), r is the least prime > n. -/
+theorem npc_candidate_spec (mr : ℕ → Bool) (n : ℤ) (hn : 997 ≤ n) (hnorej : ∀ c, c.Prime → mr c = true)
+    (fuel r : ℕ) (h : npcModel mr fuel n = some r) :
+    n < r ∧ r % 2 = 1 ∧ mr r = true ∧ (∀ q ∈ npcTab.take (npcTab.length - 1), ¬ q ∣ r) ∧
+    (∀ j : ℕ, n < j → j < r → ¬ j.Prime) ∧ ((∀ c, mr c = true → c.Prime) → r.Prime) := by
+  obtain ⟨m, rfl⟩ : ∃ m : ℕ, n = (m : ℤ) := ⟨n.toNat, by omega⟩
+  have hm : 997 ≤ m := by omega
+  obtain ⟨t1, t2⟩ := npc_table_facts
+  have hp0 : (m + 1) ||| 1 = m + 1 + 1 - (m + 1) % 2 := or_one_eq (m + 1)
+  have hsmall : npcSmallPath (m : ℤ) = none := by
+    unfold npcSmallPath
+    rw [if_neg (by omega : ¬ ((m : ℤ) < 2))]
+    simp only [Int.toNat_natCast, t2, hp0]
+    rw [if_neg (by omega), if_neg (by omega)]
+  unfold npcModel at h
+  simp only [hsmall, Int.toNat_natCast] at h
+  obtain ⟨h1, h2, h3, h4, h5⟩ := npcLoop_no_prime_skipped mr _ (fun q hq => (isPrimeTD_iff q).1 (t1 q hq).1)
+    ((m + 1) ||| 1) (by rw [hp0]; omega) (by rw [hp0]; omega) (fun q hq => by have := (t1 q hq).2; rw [hp0]; omega)
+    hnorej fuel r h
+  rw [hp0] at h1 h5
+  refine ⟨by omega, h2, h3, h4, fun j hj1 hj2 hp => ?_, fun hs => hs r h3⟩
+  have hj1' : m < j := by omega
+  by_cases hge : m + 1 + 1 - (m + 1) % 2 ≤ j
+  · exact h5 j hge hj2 hp
+  · have hje : j = m + 1 ∧ (m + 1) % 2 = 0 := by omega
+    rcases hp.eq_two_or_odd with e | e <;> omega
+example : npcModel isPrime 100 1000 = some 1009 ∧ npcModel isPrime 100 1327 = some 1361 ∧
+    npcModel (fun c => c == 1003 || isPrime c) 100 1000 = some 1009 := by decide +kernel
+
+/-- **mpz_nextprime** with exact tests: if both Miller-Rabin stages accept exactly the primes, the result is the least
+    prime > n (n ≥ 997; below, the table path above).  -/
+theorem nextprime_spec_given_exact_tests (mr2 mr23 : ℕ → Bool) (n : ℤ) (hn : 997 ≤ n)
+    (h2 : ∀ c, mr2 c = true ↔ c.Prime) (h23 : ∀ c, mr23 c = true ↔ c.Prime) (r : ℕ)
+    (h : nextprimeModel mr2 mr23 n = some r) :
+    r.Prime ∧ n < r ∧ ∀ j : ℕ, n < j → j < r → ¬ j.Prime := by
+  unfold nextprimeModel at h
+  cases hc : npcModel mr2 4000 n with
+  | none => simp [hc] at h
+  | some x =>
+    obtain ⟨c1, _, c3, _, c5, c6⟩ := npc_candidate_spec mr2 n hn (fun c hp => (h2 c).2 hp) 4000 x hc
+    have hx : x.Prime := c6 (fun c hcc => (h2 c).1 hcc)
+    simp only [hc] at h
+    by_cases hbig : x ≥ 1000000
+    · simp only [hbig, if_true] at h
+      have : mr23 x = true := (h23 x).2 hx
+      simp [nextprimeLoop, this] at h
+      subst h; exact ⟨hx, c1, c5⟩
+    · simp only [hbig, if_false, Option.some.injEq] at h
+      subst h; exact ⟨hx, c1, c5⟩
+/-- …but NOT with the tests as they are (FINDING): when a composite candidate x passes the two rounds of
+    mpz_next_prime_candidate and fails the 23 rounds of mpz_nextprime, the loop `mpz_add_ui (x, x, 2);
+    mpz_next_prime_candidate (x, x, rnd)` never examines x + 2.  With x = 6794614661 = 47591·142771 (accepted by the real
+    library's first stage) the model, like the library, returns 6794614691 and skips the prime 6794614663. -/
+example : nextprimeModel (fun c => c == 6794614661 || isPrime c) isPrime 6794614660 = some 6794614691 ∧
+    isPrime 6794614663 = true ∧ isPrime 6794614661 = false ∧ 47591 * 142771 = 6794614661 := by decide +kernel
+
+end Mpir.Sieve
